@@ -15,7 +15,7 @@ for d in sorted(glob.glob('/verif/seeded/*/')):
         missed_before = any(not r.get('detected') for r in runs[:runs.index(det[0])])
         res = tier + (' (after strengthening)' if missed_before else '')
     else:
-        res = 'NOT by this check'
+        res = 'outside the property as quantified' if m.get('outside_property') else 'NOT by this check'
     if m.get('note'):
         res += ' — ' + m['note']
     cell = lambda s: (s or '').replace('|', '\\|').replace('\n', ' ')
